@@ -171,3 +171,73 @@ Proof.
     apply Rmult_lt_reg_r with (P * P); [exact HPP|].
     replace (rlit (ma, ea) * (P * P)) with (rlit (ma, ea) * P * P) by ring. exact Hlt.
 Qed.
+
+(* ---- amplitude envelope in integers ---- *)
+Definition zaterm (s M : Z) (i : nat) (x : dterm3) : Z := (Z.abs (toS s (fst (fst x))) * M ^ Z.of_nat i)%Z.
+Fixpoint zabound (s M : Z) (i : nat) (T : list (list dterm3)) : Z :=
+  match T with
+  | [] => 0%Z
+  | sr :: T' => (zsum (map (zaterm s M i) sr) + zabound s M (S i) T')%Z
+  end.
+Definition zafits (s : Z) (T : list (list dterm3)) : bool :=
+  forallb (forallb (fun x => fits s (fst (fst x)))) T.
+
+Theorem zabound_val s M T : (0 <= s)%Z -> forall i, zafits s T = true ->
+  IZR (zabound s M i T) = abound (IZR M) i (Rtable T) * IZR (10 ^ s).
+Proof.
+  intro Hs. induction T as [|sr T IH]; intros i Hf; simpl.
+  - ring.
+  - unfold zafits in Hf. simpl in Hf. apply andb_prop in Hf as [Hx Hr].
+    rewrite plus_IZR, (IH (S i) Hr). rewrite Rmult_plus_distr_r. f_equal.
+    clear IH Hr. induction sr as [|x sr IHs]; simpl.
+    + unfold sumR. simpl. ring.
+    + simpl in Hx. apply andb_prop in Hx as [Hx1 Hx2].
+      rewrite plus_IZR, (IHs Hx2). unfold zaterm. rewrite mult_IZR, (toS_abs s _ Hs Hx1).
+      rewrite <- pow_IZR_nat. unfold rterm, tA. cbn [fst snd]. unfold sumR. simpl. ring.
+Qed.
+
+(* |series| <= num / 10^s with num computed from the table *)
+Definition env_check (s M : Z) (T : list (list dterm3)) : bool := (0 <=? s)%Z && zafits s T.
+
+Theorem env_check_bound s M T : env_check s M T = true ->
+  forall t, Rabs t <= IZR M -> Rabs (direct_sum t (Rtable T)) <= IZR (zabound s M 0 T) / IZR (10 ^ s).
+Proof.
+  intros H t Ht. apply andb_prop in H as [Hs Hf]. apply Z.leb_le in Hs.
+  pose proof (pow10_pos s Hs) as Hp.
+  rewrite (zabound_val s M T Hs 0%nat Hf).
+  replace (abound (IZR M) 0 (Rtable T) * IZR (10 ^ s) / IZR (10 ^ s)) with (abound (IZR M) 0 (Rtable T))
+    by (field; lra).
+  apply direct_sum_envelope. exact Ht.
+Qed.
+
+(* around the constant term: T = (x0 :: s0) :: rest with x0 = (A0, 0, 0) *)
+Definition envc_check (s M : Z) (T : list (list dterm3)) : bool :=
+  match T with
+  | (x0 :: s0) :: rest =>
+      (0 <=? s)%Z && (fst (snd (fst x0)) =? 0)%Z && (fst (snd x0) =? 0)%Z && zafits s (s0 :: rest)
+  | _ => false
+  end.
+Definition const_term (T : list (list dterm3)) : R :=
+  match T with (x0 :: _) :: _ => rlit (fst (fst x0)) | _ => 0 end.
+Definition tail_table (T : list (list dterm3)) : list (list dterm3) :=
+  match T with (_ :: s0) :: rest => s0 :: rest | _ => [] end.
+
+Theorem envc_check_bound s M T : envc_check s M T = true ->
+  forall t, Rabs t <= IZR M ->
+  Rabs (direct_sum t (Rtable T) - const_term T) <= IZR (zabound s M 0 (tail_table T)) / IZR (10 ^ s).
+Proof.
+  destruct T as [|[|x0 s0] rest]; try discriminate.
+  unfold envc_check. intros H t Ht.
+  repeat (apply andb_prop in H; destruct H as [H ?]).
+  apply Z.leb_le in H. pose proof (pow10_pos s H) as Hp.
+  destruct x0 as [[[ma ea] [mb eb]] [mc ec]]. cbn [fst snd] in *.
+  repeat match goal with Hx : (_ =? 0)%Z = true |- _ => apply Z.eqb_eq in Hx end.
+  subst mb mc. cbn [tail_table const_term fst snd].
+  match goal with Hx : zafits _ _ = true |- _ => rewrite (zabound_val s M (s0 :: rest) H 0%nat Hx) end.
+  replace (abound (IZR M) 0 (Rtable (s0 :: rest)) * IZR (10 ^ s) / IZR (10 ^ s))
+    with (abound (IZR M) 0 (Rtable (s0 :: rest))) by (field; lra).
+  apply (direct_sum_envelope_const (rterm ((ma, ea), (0%Z, eb), (0%Z, ec))) (map rterm s0) (Rtable rest) t (IZR M)).
+  - unfold rterm, tB. cbn [fst snd]. apply rlit_0.
+  - unfold rterm, tC. cbn [fst snd]. apply rlit_0.
+  - exact Ht.
+Qed.
